@@ -103,7 +103,8 @@ PROPS.update({
         "level_text": "(a) MC_Placement: the Annex F machine of Placement.tla is model-checked for all 48 shapes (no overwrite, complete, exactly the four corner modules left, terminates). (b) Trace_Place: the implementation's traversal (codeword number + eight cells per visit, recovered through the public API from the addresses handed to the visitor) must be step for step the placement sequence of the machine - exhaustive over the 48 sizes. (c) Trace_Geom: values - rendered pixels of random/encoded codeword vectors equal the spec's placement applied to the codewords, corner pattern, read-back.",
         "level_note": "Trusts: Placement.tla as transcription of Annex F / ISO 21471 (cross-checked against the repository's three golden layouts by the trace itself).",
         "mc": ["MC_Placement"],
-        "jobs": [PLACE_JOB, GEOM_JOB],
+        # a parsed matrix that is rendered again must put every codeword bit back into the same module
+        "jobs": [PLACE_JOB, dict(GEOM_JOB, clause_map={"C08.rerender": "C07.rerender"})],
         "rule": "place: one case per symbol size (48), one event per codeword visit (13,6xx events); geom: 2 codeword vectors per size (random and encoder output); non-trivial = every case; distinct = (size, vector)",
         "assumptions": ["value independence is probed with 2 (quick) / 4 (thorough) vectors per size on top of the value-free traversal trace"],
         "exhaustive_quick": True, "exhaustive_thorough": True,
